@@ -92,12 +92,13 @@ def run_config(ctx, config):
                 else:
                     want = S.new((op, At, Bt), S.unit(a_, tag=q.path), tag=q.path)
                 opforms.body_form(ctx, "single-unit", inst, U, imp, fn, want)
-    ctx.floor("%s: types without reference unit" % config, n_noref, 2)
-    ctx.floor("%s: single-unit types" % config, n_single, 1)
+    base = config in ("f64-all", "dec-all")   # the no_std configurations contain the catalogue only (Temperature)
+    ctx.floor("%s: types without reference unit" % config, n_noref, 2 if base else 1)
+    ctx.floor("%s: single-unit types" % config, n_single, 1 if base else 0)
 
 
 def run(ctx):
-    for config in ("f64-all", "dec-all"):
+    for config in ("f64-all", "dec-all") + (("f64-nostd", "dec-nostd") if ctx.tier == "thorough" else ()):
         run_config(ctx, config)
     ctx.rule_text = "5 generic obligations per configuration (truth table over unit-equality / amount-equality atoms, diverging branch included) + forwarders per type"
     ctx.trusted = ["rustc THIR construction and trait resolution", "derived PartialEq of field-less unit enums is discriminant equality",
